@@ -25,6 +25,7 @@ RULE = ("one run = 1-10 simulated terminals (input/output sizes 0..max, read-wri
         "the regions of pdo_assign and on the logical windows; 'big' draws sizes that make "
         "groups exceed one frame; distinct = distinct event-log digests; non-trivial = a "
         "group with at least two terminals cycled at least twice")
+RULE += '; since the 4th session also: the master connected again with live groups, a restart that is rejected (oversized direct terminal) and then repeated, one more group started after a restart'
 COMPONENTS = {
     "real": ["ebpfcat.ebpfcat.SyncGroupBase.allocate/map_fmmu/run", "EBPFTerminal.allocate",
              "ebpfcat.terminals.AerotechBase.allocate", "SterilePacket.append/append_fmmu",
